@@ -599,6 +599,26 @@ func (c *ovfCtx) upperStruct(v ssa.Value, facts []ovfFact) *big.Int {
 		if _, hi := c.paramRange(x); hi != nil {
 			best = minBig(best, hi)
 		}
+	case *ssa.Phi:
+		// a value chosen between alternatives before it is used (limit := MaxInt64; if signed { limit++ })
+		if c.visiting[x] == 0 {
+			c.visiting[x] = -1
+			var m *big.Int
+			for i, e := range x.Edges {
+				eu := c.upperStruct(e, c.factsAt(x.Block().Preds[i]))
+				if eu == nil {
+					m = nil
+					break
+				}
+				if m == nil || eu.Cmp(m) > 0 {
+					m = eu
+				}
+			}
+			delete(c.visiting, x)
+			if m != nil {
+				best = minBig(best, m)
+			}
+		}
 	case *ssa.Convert:
 		if isUnsigned(x.X.Type()) {
 			if xu := c.upperStruct(x.X, facts); xu != nil {
@@ -606,6 +626,13 @@ func (c *ovfCtx) upperStruct(v ssa.Value, facts []ovfFact) *big.Int {
 			}
 		}
 	case *ssa.BinOp:
+		if x.Op == token.ADD {
+			if xu, yu := c.upperStruct(x.X, facts), c.upperStruct(x.Y, facts); xu != nil && yu != nil {
+				if sum := new(big.Int).Add(xu, yu); sum.Cmp(best) <= 0 {
+					best = sum
+				}
+			}
+		}
 		if x.Op == token.QUO {
 			if xu, yl := c.upperStruct(x.X, facts), c.lower(x.Y, facts); xu != nil && yl.Sign() > 0 {
 				best = minBig(best, new(big.Int).Quo(xu, yl))
@@ -647,6 +674,21 @@ func (c *ovfCtx) lower(v ssa.Value, facts []ovfFact) *big.Int {
 		if lo, _ := c.paramRange(x); lo != nil {
 			best = maxBig(best, lo)
 		}
+	case *ssa.Phi:
+		if c.visiting[x] == 0 {
+			c.visiting[x] = -1
+			var m *big.Int
+			for i, e := range x.Edges {
+				el := c.lower(e, c.factsAt(x.Block().Preds[i]))
+				if m == nil || el.Cmp(m) < 0 {
+					m = el
+				}
+			}
+			delete(c.visiting, x)
+			if m != nil {
+				best = maxBig(best, m)
+			}
+		}
 	case *ssa.Convert:
 		if isUnsigned(x.X.Type()) {
 			if tm := typeMax(x.Type()); tm != nil {
@@ -657,6 +699,12 @@ func (c *ovfCtx) lower(v ssa.Value, facts []ovfFact) *big.Int {
 		}
 	case *ssa.BinOp:
 		switch x.Op {
+		case token.ADD:
+			// only when the sum cannot wrap
+			xu, yu := c.upperStruct(x.X, facts), c.upperStruct(x.Y, facts)
+			if tm := typeMax(x.Type()); tm != nil && xu != nil && yu != nil && new(big.Int).Add(xu, yu).Cmp(tm) <= 0 {
+				best = maxBig(best, new(big.Int).Add(c.lower(x.X, facts), c.lower(x.Y, facts)))
+			}
 		case token.SUB:
 			xl, yu := c.lower(x.X, facts), c.upperStruct(x.Y, facts)
 			if yu != nil && xl.Cmp(yu) >= 0 {
